@@ -58,6 +58,19 @@ func runC17(o *Out, r *rand.Rand) {
 				vec[i] = x
 				rec(i + 1)
 			}
+			if i == n-1 {
+				// the last server never answers before the caller's deadline; completion orders in
+				// which it is last
+				vec[i] = foSlow
+				for _, op := range []string{"broadcast", "fork", "inform"} {
+					for _, p := range perms(n) {
+						if p[n-1] != n-1 || (!thorough() && n >= 3 && r.Intn(3) != 0) {
+							continue
+						}
+						c17CaseCtx(o, op, append([]fakeOutcome(nil), vec...), p, true)
+					}
+				}
+			}
 		}
 		rec(0)
 	}
@@ -66,6 +79,13 @@ func runC17(o *Out, r *rand.Rand) {
 var c17Counter int
 
 func c17Case(o *Out, op string, vec []fakeOutcome, order []int) {
+	c17CaseCtx(o, op, vec, order, false)
+}
+
+// withDeadline: the caller's context ends (a deadline the harness triggers by hand) once every
+// server that answers at all has answered; the servers whose outcome is foSlow have not, and their
+// calls end with the context's error – a little later (slowWindUp)
+func c17CaseCtx(o *Out, op string, vec []fakeOutcome, order []int, withDeadline bool) {
 	n := len(vec)
 	sc := &fakeScenario{perAddr: map[string]fakeOutcome{}, gates: map[string]chan struct{}{}}
 	for i := 0; i < 8; i++ {
@@ -85,6 +105,13 @@ func c17Case(o *Out, op string, vec []fakeOutcome, order []int) {
 	if slow {
 		sc.slowClose = 3 * time.Millisecond
 	}
+	var ctx context.Context = context.Background()
+	var dctx *deadlineCtx
+	if withDeadline {
+		dctx = &deadlineCtx{deadline: time.Now().Add(time.Hour), done: make(chan struct{})}
+		ctx = dctx
+		sc.slowWindUp = 4 * time.Millisecond
+	}
 	setScenario(sc)
 	xc, _ := mkXClient(n, client.Failfast, 0, client.RandomSelect)
 	defer xc.Close()
@@ -98,11 +125,11 @@ func c17Case(o *Out, op string, vec []fakeOutcome, order []int) {
 		var res result
 		switch op {
 		case "broadcast":
-			res.err = xc.Broadcast(context.Background(), "M", 1, reply)
+			res.err = xc.Broadcast(ctx, "M", 1, reply)
 		case "fork":
-			res.err = xc.Fork(context.Background(), "M", 1, reply)
+			res.err = xc.Fork(ctx, "M", 1, reply)
 		default:
-			res.receipts, res.err = xc.Inform(context.Background(), "M", 1, reply)
+			res.receipts, res.err = xc.Inform(ctx, "M", 1, reply)
 		}
 		resCh <- res
 	}()
@@ -110,6 +137,11 @@ func c17Case(o *Out, op string, vec []fakeOutcome, order []int) {
 	var res result
 	returned := false
 	for _, i := range order {
+		if withDeadline && vec[i] == foSlow && dctx != nil {
+			// everything that answers has answered (slow servers come last in `order`): the deadline passes
+			dctx.expire()
+			dctx = nil
+		}
 		close(gates[i])
 		if !returned {
 			select {
@@ -144,6 +176,16 @@ func c17Case(o *Out, op string, vec []fakeOutcome, order []int) {
 	}
 	line := fmt.Sprintf("fan %s %s", op, strings.Join(spec, ","))
 	rp := map[string]any{"case": line, "err": fmt.Sprint(res.err), "slow_close_of_broken_clients": slow}
+	if withDeadline {
+		var sl []int
+		for i, x := range vec {
+			if x == foSlow {
+				sl = append(sl, i)
+			}
+		}
+		rp["servers_that_never_answer_before_the_callers_deadline"] = sl
+		o.Count("with-deadline." + op)
+	}
 	nontrivial := !allOK
 	o.Count("op." + op)
 	b := func(x bool) string {
